@@ -419,6 +419,14 @@ impl ops::Sub<RealSemiring> for RealSemiring {"""),
                     None => (),
                     Some(v) => return *v,
                 };"""),
+    dict(name="ws-dup-new-watch-ignores-other-watch", file="src/repr/unit_prop.rs", rule="WS", props=["C09"], expect="WS-dup",
+         old="""                let new_lit: &Literal = if already_watched {
+                    remaining_lits.nth(1).unwrap()
+                } else {
+                    remaining_lits.next().unwrap()
+                };""",
+         new="""                let _ = already_watched;
+                let new_lit: &Literal = remaining_lits.next().unwrap();"""),
     dict(name="law-eu-choose-smaller", file="src/util/semirings/expectation.rs", rule="LAW", props=["C13"], expect="ExpectedUtility:choose",
          old="""impl BBSemiring for ExpectedUtility {
     fn choose(&self, arg: &ExpectedUtility) -> ExpectedUtility {
